@@ -123,6 +123,32 @@ def check(ctx):
                 else:
                     ref = ctx.call_func(I2, s2, "ref.selection_ref.y_sample_residual", yref, Xref, ys, Xs, nsel, tol)
                 ctx.compare("R-ROLE", f"PCovCUR.{pkg}: y_current_ = y minus its fit on the selected {'columns' if axis == 1 else 'samples only'}", N, ctx.attr(st, o, "y_current_"), ref, site, pkg)
+    cadence(ctx, N)
+    # ---------------- cold initialisation: residual is a copy, scores from it ------------------------
+    for pkg, axis, S in (("feature", 1, "M"), ("sample", 0, "N")):
+        for cname in ("CUR", "PCovCUR"):
+            cls = P.cls(f"skmatter.{pkg}_selection.{cname}")
+            I, st = ctx.interp(), State()
+            ctor = {"n_to_select": integer("S")}
+            if cname == "PCovCUR":
+                ctor["mixing"] = scalar("alpha", 0, 1, True, True)
+            o = ctx.construct(I, st, cls, **ctor)
+            st.heap[o.obj.id]["_axis"] = vconst(axis)
+            X, y = arr("X", "N", "M"), arr("y", "N", "P")
+            ctx.call_method(I, st, o, "_init_greedy_search", X, y if cname == "PCovCUR" else vconst(None), integer("S"))
+            xc = ctx.attr(st, o, "X_current_")
+            site = ctx.site(P.method(cls, "_init_greedy_search"))
+            ctx.ob("Shape", f"{cname}.{pkg}: X_current_ is a private copy of X", xc is not None and xc.term == X.term and not any(o_[0] == "in" for o_ in xc.orig), f"origin {sorted(xc.orig)}", site, pkg)
+            if cname == "PCovCUR":
+                ycur = ctx.attr(st, o, "y_current_")
+                ctx.ob("Shape", f"{cname}.{pkg}: y_current_ is a private copy of y", ycur is not None and ycur.term == y.term and not any(o_[0] == "in" for o_ in ycur.orig), f"origin {sorted(ycur.orig)}", site, pkg)
+            ctx.shape_is("Shape", f"{cname}.{pkg}: pi_ length after initialisation", ctx.attr(st, o, "pi_"), (S,), site, pkg)
+
+
+def cadence(ctx, N, RULE="R-CADENCE"):
+    """refresh cadence of one selection step and of a warm start, with _compute_pi / _orthogonalize
+    uninterpreted (shared with C08: a warm start must continue exactly the cold search)"""
+    P = ctx.P
     # ---------------- R-CADENCE ---------------------------------------------------------------
     for pkg, axis, S in (("feature", 1, "M"), ("sample", 0, "N")):
         for cname in ("CUR", "PCovCUR"):
@@ -170,10 +196,10 @@ def check(ctx):
                 ref = ctx.call_func(I2, s2, "ref.selection_ref.cur_step", Xc, yc if has_y else vconst(None), pi, V("int", T("add", nsel.term, T("const", __import__("fractions").Fraction(1))), shape=()), l, rec)
                 site = ctx.site(P.method(cls, "_update_post_selection"))
                 cfg = f"{pkg}.{cname} recompute_every={re_name}"
-                ctx.compare("R-CADENCE", f"{cfg}: residual after one step", N, ctx.attr(st, o, "X_current_"), ref.items[0], site, cfg)
+                ctx.compare(RULE, f"{cfg}: residual after one step", N, ctx.attr(st, o, "X_current_"), ref.items[0], site, cfg)
                 if has_y:
-                    ctx.compare("R-CADENCE", f"{cfg}: y residual after one step", N, ctx.attr(st, o, "y_current_"), ref.items[1], site, cfg)
-                ctx.compare("R-CADENCE", f"{cfg}: scores after one step (refresh cadence, pick zeroed last)", N, ctx.attr(st, o, "pi_"), ref.items[2], site, cfg)
+                    ctx.compare(RULE, f"{cfg}: y residual after one step", N, ctx.attr(st, o, "y_current_"), ref.items[1], site, cfg)
+                ctx.compare(RULE, f"{cfg}: scores after one step (refresh cadence, pick zeroed last)", N, ctx.attr(st, o, "pi_"), ref.items[2], site, cfg)
                 # warm start
                 I, st = ctx.interp(stubs=stubs, assume=_assume), State()
                 attrs = dict(attrs)
@@ -192,30 +218,16 @@ def check(ctx):
                     xc_after = ctx.attr(st, o, "X_current_")
                     loops = [t for t in tq.walk_all(xc_after.term) if t.op == "loop"]
                     ok_it = bool(loops) and all(t.args[1] == attrs["selected_idx_"].term for t in loops)
-                    ctx.ob("R-CADENCE", f"{cfg}: warm start re-orthogonalises exactly the previously selected items (before the index buffer is re-extended)", ok_it, f"loop over {[repr(t.args[1])[:80] for t in loops]}", site, cfg)
+                    ctx.ob(RULE, f"{cfg}: warm start re-orthogonalises exactly the previously selected items (before the index buffer is re-extended)", ok_it, f"loop over {[repr(t.args[1])[:80] for t in loops]}", site, cfg)
+                    I3, s3 = ctx.interp(stubs=stubs), State()
+                    refw = ctx.call_func(I3, s3, "ref.selection_ref.cur_warm_residual", Xc, yc if has_y else vconst(None), attrs["selected_idx_"], vconst(axis), attrs["tolerance"])
+                    ctx.compare(RULE, f"{cfg}: warm start projects out each previous pick whose own residual (taken along the selection axis) exceeds the tolerance", N, xc_after, refw.items[0], site, cfg)
+                    if has_y:
+                        ctx.compare(RULE, f"{cfg}: warm start y residual", N, ctx.attr(st, o, "y_current_"), refw.items[1], site, cfg)
                 if re_name == "0":
-                    ctx.ob("R-CADENCE", f"{cfg}: warm start keeps the scores when they are never refreshed", piv.term == pi.term, f"pi_ after warm start = {piv.term!r}", site, cfg)
+                    ctx.ob(RULE, f"{cfg}: warm start keeps the scores when they are never refreshed", piv.term == pi.term, f"pi_ after warm start = {piv.term!r}", site, cfg)
                     xc_after = ctx.attr(st, o, "X_current_")
-                    ctx.ob("R-CADENCE", f"{cfg}: warm start does not orthogonalise when recompute_every == 0", xc_after.term == Xc.term, f"X_current_ = {xc_after.term!r}", site, cfg)
+                    ctx.ob(RULE, f"{cfg}: warm start does not orthogonalise when recompute_every == 0", xc_after.term == Xc.term, f"X_current_ = {xc_after.term!r}", site, cfg)
                 else:
                     ok = piv.term.op == "PI" and piv.term.args[0] == ctx.attr(st, o, "X_current_").term
-                    ctx.ob("R-CADENCE", f"{cfg}: warm start refreshes the scores from the current residual", ok, f"pi_ after warm start = {piv.term!r}", site, cfg)
-    # ---------------- cold initialisation: residual is a copy, scores from it ------------------------
-    for pkg, axis, S in (("feature", 1, "M"), ("sample", 0, "N")):
-        for cname in ("CUR", "PCovCUR"):
-            cls = P.cls(f"skmatter.{pkg}_selection.{cname}")
-            I, st = ctx.interp(), State()
-            ctor = {"n_to_select": integer("S")}
-            if cname == "PCovCUR":
-                ctor["mixing"] = scalar("alpha", 0, 1, True, True)
-            o = ctx.construct(I, st, cls, **ctor)
-            st.heap[o.obj.id]["_axis"] = vconst(axis)
-            X, y = arr("X", "N", "M"), arr("y", "N", "P")
-            ctx.call_method(I, st, o, "_init_greedy_search", X, y if cname == "PCovCUR" else vconst(None), integer("S"))
-            xc = ctx.attr(st, o, "X_current_")
-            site = ctx.site(P.method(cls, "_init_greedy_search"))
-            ctx.ob("Shape", f"{cname}.{pkg}: X_current_ is a private copy of X", xc is not None and xc.term == X.term and not any(o_[0] == "in" for o_ in xc.orig), f"origin {sorted(xc.orig)}", site, pkg)
-            if cname == "PCovCUR":
-                ycur = ctx.attr(st, o, "y_current_")
-                ctx.ob("Shape", f"{cname}.{pkg}: y_current_ is a private copy of y", ycur is not None and ycur.term == y.term and not any(o_[0] == "in" for o_ in ycur.orig), f"origin {sorted(ycur.orig)}", site, pkg)
-            ctx.shape_is("Shape", f"{cname}.{pkg}: pi_ length after initialisation", ctx.attr(st, o, "pi_"), (S,), site, pkg)
+                    ctx.ob(RULE, f"{cfg}: warm start refreshes the scores from the current residual", ok, f"pi_ after warm start = {piv.term!r}", site, cfg)
